@@ -16,6 +16,14 @@
   OBLIGATION c21_witness_inlineNoCondLosesType
   OBLIGATION c21_witness_listNotRecursed
   OBLIGATION c21_witness_varDefaultPrinted
+  OBLIGATION c21_nested_secret_redacted
+  OBLIGATION c21_nested_secret_redacted_args
+  OBLIGATION c21_nested_example
+
+  c21_nested_secret_redacted: secrets at ANY depth below ANY mix of enclosing input types (with or
+  without secret fields of their own), lists included - whatever stands below a secret position
+  can be replaced by any value without changing the text (corollary of the value-level lemma;
+  example: depth 3 below two secret-free input types).
 
   Nothing OPEN.  (DESIGN.md's relation constrains a default value unless the variable is used at
   a secret position; the relation proved here leaves every default unconstrained, which contains
@@ -141,5 +149,81 @@ theorem c21_witness_varDefaultPrinted : Leaks { varDefaultPrinted := true } := b
   refine ⟨wDefault "SECRET3", wDefault "other", [], [], ?_, by decide⟩
   simp [EqualOutsideSecrets, wDefault, FragsRel, OpsRel, OpRel, VdRel, SsRel, SRel, ARel, VRel,
     wR, rootType, typeGet, Schema.find?, argMeta, fieldByName, isSecret, argValue, resolve]
+
+-- ------------------------------------------------------------------ secrets at any depth
+
+/-- Secrets at ANY depth: for every registry, every position description `m`, every value `g`
+    and every path into it that passes a position marked secret (`secretAlong`: the position
+    itself, or a secret input-object field of whatever input type is found on the way - the
+    enclosing input types may or may not declare secret fields of their own -, or an item of a
+    list standing there), the printed text does not depend on what stands at the end of the
+    path: replacing it by ANY other value prints the same string.  No bound on depth. -/
+theorem c21_nested_secret_redacted (R : Reg) (pv : GValue → String) (m : Option Meta) (g : GValue)
+    (path : List Nat) (new : GValue) (h : secretAlong R m g path = true) :
+    sval Defects.none R pv m (replaceAt new path g) = sval Defects.none R pv m g :=
+  (sval_eq R pv m g (replaceAt new path g) (VRel_replaceAt R new path m g h)).symm
+
+/-- the same for a whole argument list of a field: a secret below an argument, at any depth. -/
+theorem c21_nested_secret_redacted_args (R : Reg) (pv : GValue → String) (parent : Option TypeDef)
+    (field : String) (m : Option Meta) (g : GValue) (path : List Nat) (new : GValue)
+    (h : secretAlong R m g path = true) (k : String) (hm : argMeta R parent field k = m) (vars : Vars)
+    (a a' : DValue) (ha : argValue vars a = g) (ha' : argValue vars a' = replaceAt new path g) :
+    sargs Defects.none R pv vars parent field true [(k, a')] =
+      sargs Defects.none R pv vars parent field true [(k, a)] := by
+  simp only [sargs, hm, ha, ha', c21_nested_secret_redacted R pv m g path new h]
+
+/-- `LoginRequest { clientId, credentials: Credentials { user, auth: Auth { password(secret), kind } } }`:
+    neither `LoginRequest` nor `Credentials` declares a secret field; the secret sits at depth 3 -/
+def nR : Reg :=
+  { schema :=
+      { types := [
+          { name := "Query", kind := .object, fields := [
+              { name := "signin", ty := .named "Int", args := [
+                  { name := "req", ty := .named "LoginRequest", default := none },
+                  { name := "reqs", ty := .list (.named "LoginRequest"), default := none }] }] },
+          { name := "LoginRequest", kind := .input, fields := [
+              { name := "clientId", ty := .named "String", args := [] },
+              { name := "credentials", ty := .named "Credentials", args := [] }] },
+          { name := "Credentials", kind := .input, fields := [
+              { name := "user", ty := .named "String", args := [] },
+              { name := "auth", ty := .named "Auth", args := [] }] },
+          { name := "Auth", kind := .input, fields := [
+              { name := "password", ty := .named "String", args := [] },
+              { name := "kind", ty := .named "String", args := [] }] }],
+        query := "Query" },
+    secrets := { args := [], inputs := [("Auth", "password")] } }
+
+def nReq (pw : String) : GValue :=
+  .obj [("clientId", .str "c"),
+        ("credentials", .obj [("user", .str "u"), ("auth", .obj [("password", .str pw), ("kind", .str "k")])])]
+
+/-- the same request written as a literal -/
+def nReqD (pw : String) : DValue :=
+  .obj [("clientId", .str "c"),
+        ("credentials", .obj [("user", .str "u"), ("auth", .obj [("password", .str pw), ("kind", .str "k")])])]
+
+def nMeta (arg : String) : Option Meta := argMeta nR (typeGet nR "Query") "signin" arg
+
+/-- the hypothesis is satisfiable at depth 3 below two secret-free input types, directly and
+    inside a list: the path `credentials / auth / password` is secret, its end is the password -/
+example : secretAlong nR (nMeta "req") (nReq "SECRET") [1, 1, 0] = true ∧
+    subAt [1, 1, 0] (nReq "SECRET") = some (.str "SECRET") ∧
+    replaceAt (.str "other") [1, 1, 0] (nReq "SECRET") = nReq "other" ∧
+    secretAlong nR (nMeta "reqs") (.list [nReq "x", nReq "SECRET"]) [1, 1, 1, 0] = true ∧
+    -- the neighbouring `kind` and `user` are not secret
+    secretAlong nR (nMeta "req") (nReq "SECRET") [1, 1, 1] = false ∧
+    secretAlong nR (nMeta "req") (nReq "SECRET") [1, 0] = false :=
+  ⟨by decide, rfl, rfl, by decide, by decide, by decide⟩
+
+set_option maxRecDepth 8192 in
+/-- the text logged for such a request - literal, variable, list of variables -: the password is
+    masked although its two enclosing input types declare no secret field -/
+theorem c21_nested_example :
+    stringify Defects.none nR pvT [("v", nReq "SECRET2")]
+      { ops := [{ ty := .query, name := none, vars := [], dirs := [],
+                  sels := [.field none "signin" [("req", nReqD "SECRET1"), ("reqs", .list [.var "v"])] [] [] p0] }],
+        frags := [] } =
+      "query { signin(req: {clientId: \"c\", credentials: {user: \"u\", auth: {password: \"<secret>\", kind: \"k\"}}}, reqs: [{clientId: \"c\", credentials: {user: \"u\", auth: {password: \"<secret>\", kind: \"k\"}}}]) }" := by
+  decide
 
 end AGV.Props.C21
